@@ -13,6 +13,34 @@ THOROUGH = [(3, 1, 2, 1.0, False), (4, 1, 3, 1.0, False), (5, 1, 3, 0.25, False)
             (6, 1, 3, 0.01, False), (5, 2, 1, 0.05, False), (5, 1, 0, 1.0, True), (6, 1, 0, 1.0, True)]
 
 
+def judge_state(rep, case, kinds):
+    """Every query of one enumerated state put to both executions of find_best_split; returns the number of disagreements between them."""
+    stale = 0
+    for q in case["queries"]:
+        for cd in q["cands"]:
+            kinds[cd["kind"]] += 1
+        picks = {}
+        for vname, mod in build.variants():
+            pick = kauri.ask(mod, case, q)
+            picks[vname] = pick
+            rep.case((case["X"], case["kn"], case["kmax"], case["minleaf"], case["leafOf"], case["clOf"],
+                      q["expl"], q["fsub"], vname), nontrivial=bool(q["cands"]))
+            ok, desc, tags = kauri.judge(case, q, pick)
+            if not ok:
+                rep.violation(f"[{vname}] X={case['X']} kernel={case['kn']} max_clusters={case['kmax']} "
+                              f"min_leaf={case['minleaf']} leafOf={case['leafOf']} clOf={case['clOf']} "
+                              f"explore={q['expl']} features={q['fsub']}: {desc}",
+                              {"case": {k: case[k] for k in case if k != "queries"}, "query": {"expl": q["expl"], "fsub": q["fsub"]},
+                               "variant": vname, "pick": pick}, tags=tags + (vname,))
+        if picks["compiled"] != picks["pyx"]:
+            stale += 1
+    return stale
+
+
+# the recorded failing state of each known finding that the small grids of the quick tier do not reach: re-examined on every run
+PROBES = [dict(X=[[0], [1], [2], [3], [4], [5]], kn="mix", kmax=4, minleaf=1, leafOf=[0, 0, 1, 2, 3, 4], clOf=[0, 1, 2, 3, 0], nL=5, nC=4)]
+
+
 def run(tier):
     rep = Report("C08", tier)
     rep.rule = ("TLC enumerates (dataset on 0..V grid) x 4 kernels (linear, +identity, indefinite, precomputed) x "
@@ -27,28 +55,18 @@ def run(tier):
             rep.violation(f"spec theorem {r.violated} fails in Kauri.tla", {"trace": r.trace[:3000]}, tags=("spec",))
         rep.add_tlc("Kauri", r, note=f"N={n} D={d} V={v} chunks={nch} ramp={ramp}")
         for case in r.prints:
-            for q in case["queries"]:
-                for c in q["cands"]:
-                    kinds[c["kind"]] += 1
-                picks = {}
-                for vname, mod in build.variants():
-                    pick = kauri.ask(mod, case, q)
-                    picks[vname] = pick
-                    rep.case((case["X"], case["kn"], case["kmax"], case["minleaf"], case["leafOf"], case["clOf"],
-                              q["expl"], q["fsub"], vname), nontrivial=bool(q["cands"]))
-                    ok, desc, tags = kauri.judge(case, q, pick)
-                    if not ok:
-                        rep.violation(f"[{vname}] X={case['X']} kernel={case['kn']} max_clusters={case['kmax']} "
-                                      f"min_leaf={case['minleaf']} leafOf={case['leafOf']} clOf={case['clOf']} "
-                                      f"explore={q['expl']} features={q['fsub']}: {desc}",
-                                      {"case": {k: case[k] for k in case if k != "queries"}, "query": {"expl": q["expl"], "fsub": q["fsub"]},
-                                       "variant": vname, "pick": pick}, tags=tags + (vname,))
-                if picks["compiled"] != picks["pyx"]:
-                    stale += 1
+            stale += judge_state(rep, case, kinds)
         if r.prints:
             c = r.prints[len(r.prints) // 2]
             rep.sample({"X": c["X"], "kernel": c["kn"], "max_clusters": c["kmax"], "min_leaf": c["minleaf"],
                         "leafOf": c["leafOf"], "clOf": c["clOf"], "candidates": c["queries"][0]["cands"][:4]})
+    for probe in PROBES:
+        r = kauri.probe_state(probe)
+        if r.violated:
+            rep.violation(f"spec theorem {r.violated} fails in Kauri.tla on the probed state {probe}", {"trace": r.trace[:3000]}, tags=("spec",))
+        rep.add_tlc("Kauri", r, note=f"probe of the recorded state {probe['leafOf']} / {probe['clOf']} (known finding C08-realloc-second-best)")
+        for case in r.prints:
+            stale += judge_state(rep, case, kinds)
     # code -> spec: real fits validated against KauriTrace (gain = increase, pick = best, score = root + sum of gains)
     import random
     from vf.common import SEED
